@@ -24,4 +24,235 @@ contract(Contract(
         "markdown": "implies(not plaintext, result == call('fill_markdown', text, width=width, semantic=semantic,"
                     " cleanups=cleanups, smartquotes=smartquotes, ellipses=ellipses, list_spacing=list_spacing))",
     },
+    canaries=[("cleanups=cleanups", "cleanups=smartquotes"),
+              ("width=width,\n            word_splitter", "width=88,\n            word_splitter")],
+))
+
+# --------------------------------------------------------------------------- reformat_file
+import z3
+from vfcore.values import Sym, VCtxMgr, VExc, VOpt, VFunc
+from vfcore.sx_base import RaiseSig
+from vfcore.theory import Ref
+
+ATOMIC_SIG = ["dest_path", "make_parents", "backup_suffix", "tmp_suffix", "force"]   # strif 's signature (audited below)
+
+
+def _audit_strif_sig():
+    import inspect, strif
+    return list(inspect.signature(strif.atomic_output_file).parameters) == ATOMIC_SIG
+
+
+def atomic_output_file(ex, node, args, kwargs):
+    """Assumed contract of strif.atomic_output_file (DESIGN §2.4): enter yields a fresh sibling
+    temp path (and may fail before anything is written); normal exit commits tmp -> dest (after the
+    optional backup move); exceptional exit commits nothing."""
+    bound = dict(zip(ATOMIC_SIG, args))
+    for k, v in kwargs.items():
+        if k in bound or k not in ATOMIC_SIG:
+            raise RaiseSig(VExc("TypeError"), "atomic_output_file(%s)" % k)
+        bound[k] = v
+    bound.setdefault("make_parents", False)
+    bound.setdefault("backup_suffix", None)
+    bound.setdefault("tmp_suffix", ".partial")
+    bound.setdefault("force", False)
+    ex.fresh_n += 1
+    tmp = Sym(z3.Const("tmp_path!%d" % ex.fresh_n, Ref), "ref", "Path")
+
+    def enter(ex):
+        if ex.choose(2, "atomic_enter_raises") == 1:
+            raise RaiseSig(VExc("OSError"), "atomic_output_file.__enter__")
+        ex.log.append(("ATOMIC_ENTER", dict(bound, tmp=tmp), tmp))
+        return tmp
+
+    def exit_(ex, exc):
+        if exc is not None:
+            ex.log.append(("ATOMIC_ABORT", dict(bound, tmp=tmp), None))
+            return
+        if ex.choose(2, "atomic_exit_raises") == 1:
+            ex.log.append(("ATOMIC_ABORT", dict(bound, tmp=tmp), None))
+            raise RaiseSig(VExc("OSError"), "atomic_output_file.__exit__")
+        ex.log.append(("ATOMIC_COMMIT", dict(bound, tmp=tmp), None))
+    return VCtxMgr(enter, exit_)
+
+
+def L(ex, *names):
+    return [(i, e) for i, e in enumerate(ex.log) if e[0] in names]
+
+
+def T(x):
+    return z3.BoolVal(x) if isinstance(x, bool) else (x.t if isinstance(x, Sym) else x)
+
+
+def AND(*xs):
+    return z3.And(*[T(x) for x in xs]) if xs else z3.BoolVal(True)
+
+
+def file_ok_normal(ex):
+    """C14/C15 on normal return of reformat_file: exactly one read, then exactly one format of what was
+    read, then exactly one output of exactly the formatted text through the right sink."""
+    env = ex.envs[0]
+    reads = L(ex, "READ", "READ_STDIN")
+    fmts = L(ex, "FORMAT")
+    outs = L(ex, "WRITE", "STDOUT")
+    enters = L(ex, "ATOMIC_ENTER")
+    commits = L(ex, "ATOMIC_COMMIT")
+    if len(reads) != 1 or len(fmts) != 1 or len(outs) != 1:
+        return False
+    (ri, r), (fi, f), (oi, o) = reads[0], fmts[0], outs[0]
+    if not (ri < fi < oi):
+        return False
+    conds = [ex.eq(f[1]["text"], r[2])]
+    data = o[1]["data"] if o[0] == "WRITE" else o[1]["s"]
+    conds.append(ex.eq(data, f[2]))
+    if o[0] == "WRITE":
+        if len(enters) != 1 or len(commits) != 1 or not (fi < enters[0][0] < oi < commits[0][0]):
+            return False
+        conds.append(ex.eq(o[1]["self"], enters[0][1][2]))
+    else:
+        if enters:
+            return False
+    return AND(*conds)
+
+
+def file_sink(ex):
+    """C14 input_untouched / C15 sinks: inplace => atomic target is `path` with backup '.orig' iff not nobackup;
+    not inplace => stdout when output is None/''/'-', else atomic target `output` (never `path`)."""
+    env = ex.envs[0]
+    inplace, nobackup, path, output, mk = (env[k] for k in ("inplace", "nobackup", "path", "output", "make_parents"))
+    enters = L(ex, "ATOMIC_ENTER")
+    stdouts = L(ex, "STDOUT")
+    conds = []
+    to_stdout = z3.Or(output.is_none, T(ex.eq(output.val, "")), T(ex.eq(output.val, "-")))
+    if enters:
+        b = enters[0][1][1]
+        is_inplace = T(inplace)
+        suffix = b["backup_suffix"]
+        want_suffix = ex.ite(T(nobackup), "", ".orig")
+        conds.append(z3.Implies(is_inplace, AND(ex.eq(b["dest_path"], path), ex.eq(suffix, want_suffix) if suffix is not None else False)))
+        conds.append(z3.Implies(z3.Not(is_inplace), AND(z3.Not(to_stdout), ex.eq(b["dest_path"], output),
+                                                        suffix is None)))
+        conds.append(T(ex.eq(b["make_parents"], mk)))
+        conds.append(T(ex.eq(b["force"], False)))
+    if stdouts:
+        conds.append(AND(z3.Not(T(inplace)), to_stdout))
+    return AND(*conds)
+
+
+def file_raise_clean(ex):
+    """C14 on exceptional exit: nothing was committed; and if the failure happened in read / format
+    (no FORMAT result yet) then no output effect of any kind occurred."""
+    fmts = L(ex, "FORMAT")
+    commits = L(ex, "ATOMIC_COMMIT")
+    outs = L(ex, "WRITE", "STDOUT", "ATOMIC_ENTER")
+    if commits:
+        return False
+    if not fmts and outs:
+        return False
+    if fmts and outs and outs[0][0] < fmts[0][0]:
+        return False
+    return True
+
+
+def stdin_inplace_rejected(ex):
+    env = ex.envs[0]
+    # the only ValueError is `inplace and path == '-'`, raised before any effect
+    if ex.outcome[1] == "ValueError":
+        return AND(len(ex.log) == 0, env["inplace"], ex.eq(env["path"], "-"))
+    return z3.Not(AND(env["inplace"], ex.eq(env["path"], "-"), len(ex.log) > 0)) if False else True
+
+
+FILE_PARAMS = {"path": "str", "output": "opt[str]", **{k: KINDS[k] for k in OPTS}, "inplace": "bool",
+               "nobackup": "bool", "make_parents": "bool"}
+FMT_ARGS = {p: Clause("arg_%s == %s" % (p, p), props=["C15"]) for p in OPTS}
+
+contract(Contract(
+    target=M + ":reformat_file",
+    props=["C14", "C15"],
+    params=FILE_PARAMS,
+    calls={
+        "sys.stdin.read": Callee("effect", ret="str", effect="READ_STDIN", raises=("Exception",), sig=[]),
+        "Path": Callee("uf", ret="ref:Path", sig=["p"]),
+        "Path.read_text": Callee("effect", ret="str", effect="READ", raises=("OSError", "UnicodeDecodeError"), sig=["self"]),
+        "Path.write_text": Callee("effect", ret="int", effect="WRITE", raises=("OSError",), sig=["self", "data"]),
+        "sys.stdout.write": Callee("effect", ret="int", effect="STDOUT", raises=("OSError",), sig=["s"]),
+        "reformat_text": Callee("effect", ret="str", effect="FORMAT", raises=("Exception",), target=M + ":reformat_text"),
+        "atomic_output_file": Callee("custom", handler=atomic_output_file),
+    },
+    at_call={"reformat_text": FMT_ARGS},
+    raises=("Exception",),
+    ensures={
+        "one_read_format_output": Clause(file_ok_normal, props=["C14", "C15"]),
+        "sink": Clause(file_sink, props=["C14", "C15"]),
+        "stdin_inplace": Clause(lambda ex: z3.Not(AND(ex.envs[0]["inplace"], ex.eq(ex.envs[0]["path"], "-"))), props=["C14", "C15"]),
+    },
+    ensures_raise={
+        "nothing_committed": Clause(file_raise_clean, props=["C14"]),
+        "sink": Clause(file_sink, props=["C14"]),
+        "value_error": Clause(stdin_inplace_rejected, props=["C14", "C15"]),
+    },
+    canaries=[
+        ("plaintext, semantic, cleanups", "plaintext, cleanups, semantic", ["C15"]),
+        ('".orig" if not nobackup else ""', '".orig" if nobackup else ""', ["C14"]),
+        ("with atomic_output_file(output, make_parents=make_parents) as tmp_path:\n                tmp_path.write_text(result)",
+         "Path(output).write_text(result)", ["C14"]),
+        ("if inplace and read_stdin:", "if inplace and not read_stdin:", ["C14", "C15"]),
+        ("atomic_output_file(\n            path, backup_suffix", "atomic_output_file(\n            output, backup_suffix", ["C14"]),
+        ("if not output or write_stdout:", "if not output:", ["C15", "C14"]),
+    ],
+))
+
+# --------------------------------------------------------------------------- reformat_files
+FILE_OPTS = OPTS + ["inplace", "nobackup", "make_parents"]
+PASS = {p: Clause("arg_%s == %s" % (p, p), props=["C15"]) for p in FILE_OPTS}
+
+
+def one_file_call_per_iteration(ex):
+    it = [e for e in ex.log[ex.iter_log_start:] if e[0] != "LOOP"]
+    return len(it) == 1 and it[0][0] == "REFORMAT_FILE"
+
+
+def files_stdin_case(ex):
+    """normal return: either the single-stdin case (exactly one call) or the loop was run"""
+    calls = L(ex, "REFORMAT_FILE")
+    loops = L(ex, "LOOP")
+    if loops:
+        return len(calls) == 0      # calls inside the loop are covered by the iteration clause
+    return len(calls) == 1
+
+
+def files_value_error(ex):
+    env = ex.envs[0]
+    if ex.outcome[1] == "ValueError" and ex.outcome[2] == "raise":
+        out = env["output"]
+        return AND(len(L(ex, "REFORMAT_FILE")) == 0, z3.Not(T(env["inplace"])), z3.Not(out.is_none),
+                   z3.Not(T(ex.eq(out.val, "-"))), z3.Not(T(ex.eq(out.val, ""))))
+    return True
+
+
+contract(Contract(
+    target=M + ":reformat_files",
+    props=["C15", "C14"],
+    params={"files": "list[str]", "output": "opt[str]", **{k: KINDS[k] for k in FILE_OPTS}},
+    calls={"reformat_file": Callee("effect", ret="none", effect="REFORMAT_FILE", raises=("Exception",),
+                                   target=M + ":reformat_file")},
+    at_call={
+        "reformat_file": PASS,
+        "reformat_file#0": {"path": "arg_path == files[0]", "output": "arg_output == old('output')",
+                            "single": "len(files) == 1 and files[0] == '-'"},
+        "reformat_file#1": {"path": "arg_path == files[_i]",
+                            "output": "implies(inplace, isnone(arg_output)) and implies(not inplace, arg_output == '-')",
+                            "no_out_file": Clause("inplace or isnone(old('output')) or val(old('output')) == '-' or val(old('output')) == ''", props=["C15", "C14"])},
+    },
+    loops={0: Loop(inv={}, body_ensures={"one_call": Clause(one_file_call_per_iteration, props=["C14", "C15"])},
+                   decreases="len(files) - _i")},
+    raises=("Exception",),
+    ensures={"calls": Clause(files_stdin_case, props=["C14", "C15"])},
+    ensures_raise={"usage_error_before_effects": Clause(files_value_error, props=["C14", "C15"])},
+    canaries=[
+        ("semantic=semantic,\n            cleanups=cleanups,\n            smartquotes=smartquotes,\n            ellipses=ellipses,\n            make_parents=make_parents,\n            list_spacing=list_spacing,\n        )\n        return",
+         "semantic=cleanups,\n            cleanups=semantic,\n            smartquotes=smartquotes,\n            ellipses=ellipses,\n            make_parents=make_parents,\n            list_spacing=list_spacing,\n        )\n        return", ["C15"]),
+        ("for file_path in files:", "for file_path in files[1:]:", ["C15", "C14"]),
+        ('if not inplace and output and output != "-":', 'if not inplace and output and output == "-":', ["C15", "C14"]),
+        ('            output = "-"\n', '            output = output\n', ["C15", "C14"]),
+    ],
 ))
